@@ -29,12 +29,13 @@ VARIABLES
   sees,       \* [T -> version vector the running script saw]
   signalled, rootErr, waited,
   begunOK,    \* [T -> BOOLEAN] the dependencies were ready when the current run of t was decided
+  stale,      \* [T -> set of dependencies (through aggregates) that completed a run after t's last run was decided]
   lastFin     \* [T -> outcome of the last script: "none", "ok", "fail", "cancelled"]
 
 mon == <<g, word, ready, failed, nStart, nSkip, inst, shells, lastRes, ver, gen, builtFrom, sees,
-         signalled, rootErr, waited, begunOK, lastFin>>
+         signalled, rootErr, waited, begunOK, lastFin, stale>>
 vars == <<l, g, word, ready, failed, nStart, nSkip, inst, shells, lastRes, ver, gen, builtFrom, sees,
-          signalled, rootErr, waited, begunOK, lastFin>>
+          signalled, rootErr, waited, begunOK, lastFin, stale>>
 
 T == 1..g.n
 EK == {"b", "s"}
@@ -57,6 +58,10 @@ TransDeps(t) == Deps(t) \cup UNION {TransDeps(d) : d \in Deps(t)}
 Closure == Roots \cup UNION {TransDeps(r) : r \in Roots}
 RECURSIVE EffDeps(_)
 EffDeps(t) == UNION {IF g.kind[d] = "a" THEN EffDeps(d) ELSE {d} : d \in Deps(t)}
+\* the targets whose run must be re-decided after d completed one: those that reach d through aggregates only
+Dependents(d) == {t \in 1..g.n : g.kind[t] # "a" /\ d \in EffDeps(t)}
+MarkStale(d) == [t \in 1..g.n |-> IF t \in Dependents(d) THEN stale[t] \cup {d} ELSE stale[t]]
+
 RECURSIVE ServiceBehind(_)
 ServiceBehind(t) == \/ g.kind[t] = "s"
                     \/ g.kind[t] = "a" /\ \E d \in Deps(t) : ServiceBehind(d)
@@ -97,6 +102,8 @@ IndependentOK == \A t \in Closure : (\A d \in TransDeps(t) \cup {t} : ~failed[d]
                                           => (g.kind[t] = "a" \/ ready[t])
 \* C06 at a quiescent point of a watch run
 Blocked(t) == \E d \in TransDeps(t) \cup {t} : failed[d]
+\* ... and was (re-)decided after every dependency it reaches through aggregates completed its own last run
+OrderOK == \A t \in Closure : (~Blocked(t) /\ g.kind[t] # "a") => stale[t] = {}
 UpToDateOK(e) == \A t \in Closure : ~Blocked(t) =>
    /\ g.kind[t] = "b" => builtFrom[t] = EffIn(t) /\ t \in {e.executed[i] : i \in 1..Len(e.executed)}
    /\ g.kind[t] = "s" => t \in {e.executed[i] : i \in 1..Len(e.executed)} /\ inst[t] # {}
@@ -115,7 +122,7 @@ InitMon(c) ==
                                     THEN <<0>> \o [i \in 1..Len(c.inh[t]) |-> 0] ELSE <<-1>>]
   /\ sees = [t \in 1..c.n |-> <<-1>>]
   /\ signalled = FALSE /\ rootErr = 0 /\ waited = FALSE
-  /\ begunOK = [t \in 1..c.n |-> TRUE] /\ lastFin = [t \in 1..c.n |-> "none"]
+  /\ begunOK = [t \in 1..c.n |-> TRUE] /\ lastFin = [t \in 1..c.n |-> "none"] /\ stale = [t \in 1..c.n |-> {}]
 
 Init == l = 1 /\ TLCSet(1, 0) /\ InitMon(Rec[1].cfg) /\ Rec[1].e = "cfg"
 
@@ -135,13 +142,14 @@ Step(e) ==
                              THEN <<0>> \o [i \in 1..Len(e.cfg.inh[t]) |-> 0] ELSE <<-1>>]
          /\ sees' = [t \in 1..e.cfg.n |-> <<-1>>]
          /\ signalled' = FALSE /\ rootErr' = 0 /\ waited' = FALSE
-         /\ begunOK' = [t \in 1..e.cfg.n |-> TRUE] /\ lastFin' = [t \in 1..e.cfg.n |-> "none"]
+         /\ begunOK' = [t \in 1..e.cfg.n |-> TRUE] /\ lastFin' = [t \in 1..e.cfg.n |-> "none"] /\ stale' = [t \in 1..e.cfg.n |-> {}]
     [] e.e = "recv" ->
          /\ word' = IF e.ty \in {"ok", "inv"} THEN [word EXCEPT ![e.t][e.from][e.k] = e.ty] ELSE word
-         /\ Keep(<<g, ready, failed, nStart, nSkip, inst, shells, lastRes, ver, gen, builtFrom, sees, signalled, rootErr, waited, begunOK, lastFin>>)
+         /\ Keep(<<g, ready, failed, nStart, nSkip, inst, shells, lastRes, ver, gen, builtFrom, sees, signalled, rootErr, waited, begunOK, lastFin, stale>>)
     [] e.e = "begin" ->     \* the actor decided to run t (loop-top test passed)
          /\ CheckAll(StartProps(e.t), <<"start-before-deps-ready", e.t>>, StartOK(e.t))
          /\ begunOK' = [begunOK EXCEPT ![e.t] = StartOK(e.t)]
+         /\ stale' = [stale EXCEPT ![e.t] = {}]
          /\ Keep(<<g, word, ready, failed, nStart, nSkip, inst, shells, lastRes, ver, gen, builtFrom, sees, signalled, rootErr, waited, lastFin>>)
     [] e.e = "start" ->
          \* F10: a dependency's out-of-date notice arriving between the decision and the spawn is a known finding
@@ -153,18 +161,18 @@ Step(e) ==
          /\ sees' = [sees EXCEPT ![e.t] = EffIn(e.t)]
          /\ lastRes' = [lastRes EXCEPT ![e.t] = "started"]
          /\ lastFin' = [lastFin EXCEPT ![e.t] = "none"]
-         /\ Keep(<<g, word, ready, failed, nSkip, inst, ver, gen, builtFrom, signalled, rootErr, waited, begunOK>>)
+         /\ Keep(<<g, word, ready, failed, nSkip, inst, ver, gen, builtFrom, signalled, rootErr, waited, begunOK, stale>>)
     [] e.e = "skip" ->
          /\ Check("C08", <<"executed-twice-or-outside-closure", e.t>>, OnceOK(e.t))
          /\ Check(IF g.watch THEN "C06" ELSE "C02", <<"stale-skip", e.t>>, builtFrom[e.t] = EffIn(e.t))
          /\ nSkip' = [nSkip EXCEPT ![e.t] = @ + 1]
-         /\ Keep(<<g, word, ready, failed, nStart, inst, shells, lastRes, ver, gen, builtFrom, sees, signalled, rootErr, waited, begunOK, lastFin>>)
+         /\ Keep(<<g, word, ready, failed, nStart, inst, shells, lastRes, ver, gen, builtFrom, sees, signalled, rootErr, waited, begunOK, lastFin, stale>>)
     [] e.e = "finish" ->    \* the script ended: ok / fail / cancelled (shell reaped)
          /\ shells' = [shells EXCEPT ![e.t] = IF @ > 0 THEN @ - 1 ELSE 0]
          /\ gen' = IF e.outcome = "ok" THEN [gen EXCEPT ![e.t] = @ + 1] ELSE gen
          /\ builtFrom' = IF e.outcome = "ok" THEN [builtFrom EXCEPT ![e.t] = sees[e.t]] ELSE builtFrom
          /\ lastFin' = [lastFin EXCEPT ![e.t] = e.outcome]
-         /\ Keep(<<g, word, ready, failed, nStart, nSkip, inst, lastRes, ver, sees, signalled, rootErr, waited, begunOK>>)
+         /\ Keep(<<g, word, ready, failed, nStart, nSkip, inst, lastRes, ver, sees, signalled, rootErr, waited, begunOK, stale>>)
     [] e.e = "result" ->    \* the actor learnt the outcome of its build
          /\ CheckAll({"C07", "C05"}, <<"script-failure-not-reported-as-failure", e.t, e.res>>,
                      (e.res # "skipped" /\ lastFin[e.t] = "fail") => e.res = "failed")
@@ -175,6 +183,8 @@ Step(e) ==
          /\ ready' = IF e.res \in {"completed", "skipped"} /\ lastFin[e.t] \notin {"fail", "cancelled"} THEN [ready EXCEPT ![e.t] = TRUE] ELSE ready
          /\ failed' = IF e.res = "failed" \/ (e.res # "skipped" /\ lastFin[e.t] = "fail") THEN [failed EXCEPT ![e.t] = TRUE]
                       ELSE IF e.res \in {"completed", "skipped"} THEN [failed EXCEPT ![e.t] = FALSE] ELSE failed
+         \* only a build that really re-ran has rebuilt outputs that affect its dependents (a restarted service has none)
+         /\ stale' = IF e.res = "completed" THEN MarkStale(e.t) ELSE stale
          /\ Keep(<<g, word, nStart, nSkip, inst, shells, ver, gen, builtFrom, sees, signalled, rootErr, waited, begunOK, lastFin>>)
     [] e.e = "svcstart" ->
          /\ CheckAll(StartProps(e.t), <<"service-start-before-deps-ready", e.t>>, StartOK(e.t))
@@ -184,14 +194,15 @@ Step(e) ==
          /\ nStart' = [nStart EXCEPT ![e.t] = @ + 1]
          /\ ready' = [ready EXCEPT ![e.t] = TRUE]
          /\ failed' = [failed EXCEPT ![e.t] = FALSE]
+         /\ stale' = [stale EXCEPT ![e.t] = {}]
          /\ Keep(<<g, word, nSkip, shells, lastRes, ver, gen, builtFrom, sees, signalled, rootErr, waited, begunOK, lastFin>>)
     [] e.e = "svcstop" ->
          /\ inst' = [inst EXCEPT ![e.t] = @ \ {e.pid}]
-         /\ Keep(<<g, word, ready, failed, nStart, nSkip, shells, lastRes, ver, gen, builtFrom, sees, signalled, rootErr, waited, begunOK, lastFin>>)
+         /\ Keep(<<g, word, ready, failed, nStart, nSkip, shells, lastRes, ver, gen, builtFrom, sees, signalled, rootErr, waited, begunOK, lastFin, stale>>)
     [] e.e = "svcfail" ->
          /\ Check("C01", <<"service-start-before-deps-ready", e.t>>, StartOK(e.t))
          /\ failed' = [failed EXCEPT ![e.t] = TRUE]
-         /\ Keep(<<g, word, ready, nStart, nSkip, inst, shells, lastRes, ver, gen, builtFrom, sees, signalled, rootErr, waited, begunOK, lastFin>>)
+         /\ Keep(<<g, word, ready, nStart, nSkip, inst, shells, lastRes, ver, gen, builtFrom, sees, signalled, rootErr, waited, begunOK, lastFin, stale>>)
     [] e.e = "send" ->
          /\ CheckAll({"C01", "C20"} \cup (IF e.k = "s" THEN {"C11"} ELSE {}), <<"aggregate-forwards-early", e.t, e.k>>,
                   (g.kind[e.t] = "a" /\ e.ty = "ok") => AggOK(e.t, e.k))
@@ -206,19 +217,19 @@ Step(e) ==
     [] e.e = "rooterr" ->
          /\ Check("C07", <<"error-names-target-that-did-not-fail", e.t>>, failed[e.t])
          /\ rootErr' = e.t
-         /\ Keep(<<g, word, ready, failed, nStart, nSkip, inst, shells, lastRes, ver, gen, builtFrom, sees, signalled, waited, begunOK, lastFin>>)
+         /\ Keep(<<g, word, ready, failed, nStart, nSkip, inst, shells, lastRes, ver, gen, builtFrom, sees, signalled, waited, begunOK, lastFin, stale>>)
     [] e.e = "edit" ->
          /\ ver' = [ver EXCEPT ![e.t] = e.ver]
-         /\ Keep(<<g, word, ready, failed, nStart, nSkip, inst, shells, lastRes, gen, builtFrom, sees, signalled, rootErr, waited, begunOK, lastFin>>)
+         /\ Keep(<<g, word, ready, failed, nStart, nSkip, inst, shells, lastRes, gen, builtFrom, sees, signalled, rootErr, waited, begunOK, lastFin, stale>>)
     [] e.e = "signal" ->
          /\ signalled' = TRUE
-         /\ Keep(<<g, word, ready, failed, nStart, nSkip, inst, shells, lastRes, ver, gen, builtFrom, sees, rootErr, waited, begunOK, lastFin>>)
+         /\ Keep(<<g, word, ready, failed, nStart, nSkip, inst, shells, lastRes, ver, gen, builtFrom, sees, rootErr, waited, begunOK, lastFin, stale>>)
     [] e.e = "waitsig" ->
          /\ CheckAll({"C11", "C20"}, <<"kept-alive-without-requested-service">>, \E r \in Roots : ServiceBehind(r))
          /\ Check("C04", <<"waiting-for-signal-before-everything-ran">>, CompleteOK)
          /\ CheckAll({"C07", "C10"}, <<"kept-waiting-for-a-signal-although-a-target-failed">>, \A t \in Closure : ~failed[t])
          /\ waited' = TRUE
-         /\ Keep(<<g, word, ready, failed, nStart, nSkip, inst, shells, lastRes, ver, gen, builtFrom, sees, signalled, rootErr, begunOK, lastFin>>)
+         /\ Keep(<<g, word, ready, failed, nStart, nSkip, inst, shells, lastRes, ver, gen, builtFrom, sees, signalled, rootErr, begunOK, lastFin, stale>>)
     [] e.e = "proc" ->      \* process table scan by the driver after zinoma exited
          /\ CheckAll({"C10"} \cup (IF \E t \in Closure : g.kind[t] = "s" THEN {"C11"} ELSE {}),
                      <<"spawned-process-survives-zinoma", e.alive>>, e.alive = 0)
@@ -261,6 +272,9 @@ Step(e) ==
          /\ CheckAll({"C17"} \cup (IF g.watch THEN {} ELSE {"C04"}) \cup (IF rootErr # 0 THEN {"C10"} ELSE {}),
                      <<"stall", e.status>>, e.status # "stall")
          /\ Check("C06", <<"quiescent-but-not-up-to-date">>, (g.watch /\ e.status = "idle" /\ ~signalled) => UpToDateOK(e))
+         /\ CheckAll({"C06"} \cup (IF \E t \in 1..g.n : g.kind[t] = "a" THEN {"C20"} ELSE {}),
+                     <<"not-re-run-after-its-dependency-finished", {t \in Closure : stale[t] # {}}>>,
+                     (g.watch /\ ~g.scale /\ e.status = "idle" /\ ~signalled) => OrderOK)
          /\ UNCHANGED mon
     [] OTHER -> UNCHANGED mon
 
